@@ -246,12 +246,32 @@ def script_history_checks(rep, tier, seed, rng):
                 and cl(got["dt"], float(st_["dt"])) and cl(got["interval"], float(st_["interval"])) and got["policy"] == st_["policy"]
                 and got["tunit"] == st_["tunit"])
 
+    handed = []          # objects the caller handed to setters and still holds
+
     def quantity(v, u, array=False):
         if u == "bare":
-            return rng.choice([list(v), np.array(v, dtype=float)]) if array else rng.choice([v, float(v)])
-        if array:
-            return UnitArray([float(x) for x in v], u)
-        return rng.choice([UnitValue(v, u), "%d %s" % (v, u)])
+            q = rng.choice([list(v), np.array(v, dtype=float)]) if array else rng.choice([v, float(v)])
+        elif array:
+            q = UnitArray([float(x) for x in v], u)
+        else:
+            q = rng.choice([UnitValue(v, u), "%d %s" % (v, u)])
+        if isinstance(q, (list, np.ndarray, UnitArray, UnitValue)):
+            handed.append(q)
+        return q
+
+    def caller_edits():
+        while handed:
+            q = handed.pop()
+            if isinstance(q, np.ndarray):
+                q[:] = 77.0
+            elif isinstance(q, UnitArray):
+                q.value[:] = 77.0
+            elif isinstance(q, UnitValue):
+                q.value = 77.0
+            elif isinstance(q, UnitsSystem):
+                q.time = "h"
+            else:
+                q[:] = [77.0] * len(q)
 
     for l in lines:
         prog = json.loads(tlc.unquote_tla_json(l))
@@ -262,6 +282,7 @@ def script_history_checks(rep, tier, seed, rng):
             sc = RDScript(system=system, t_sample=[0, 1], time_step=UnitValue(1, "ms"), sampling_interval=UnitValue(1, "s"),
                           units_system=UnitsSystem(time=prog["tunit0"]))
             kept = []
+            del handed[:]
             for k, st_ in enumerate(prog["steps"]):
                 op, a = st_["op"], st_["args"]
                 ops[op] = ops.get(op, 0) + 1
@@ -279,7 +300,12 @@ def script_history_checks(rep, tier, seed, rng):
                     elif op == "set_policy":
                         sc.sampling_policy = a["p"]
                     elif op == "set_units":
-                        sc.units_system = rng.choice([UnitsSystem(time=a["u"]), {"time": a["u"]}])
+                        us_ = rng.choice([UnitsSystem(time=a["u"]), {"time": a["u"]}])
+                        sc.units_system = us_
+                        if isinstance(us_, UnitsSystem):
+                            handed.append(us_)
+                    elif op == "caller_edits":
+                        caller_edits()
                     elif op == "copy":
                         kept.append((sc, k, prog["steps"][k - 1] if k else None))
                         sc = sc.copy()
@@ -304,7 +330,7 @@ def script_history_checks(rep, tier, seed, rng):
                         break
     rep.extra["script_histories_replayed"] = len(lines)
     rep.extra["script_history_calls_by_kind"] = ops
-    missing = {"set_t_sample", "set_t_max", "set_t_max_default", "set_dt", "set_interval", "set_policy", "set_units", "copy", "roundtrip"} - set(ops)
+    missing = {"set_t_sample", "set_t_max", "set_t_max_default", "set_dt", "set_interval", "set_policy", "set_units", "copy", "roundtrip", "caller_edits"} - set(ops)
     if missing:
         raise MachineryError("generated script histories never contain: %s" % sorted(missing))
 
